@@ -238,6 +238,9 @@ package kv
 // So an opener must look for every version it listed in BOTH places — a
 // version retired between its LIST and its GET is not gone.
 //@   at call:kv.mergeRoots assert listed-versions-sought-in-both-places: len(persists) == 2 && persists[0] != persists[1]
+// ... and in the direction versions move: current/ first, then merged/ (a version retired between the two
+// lookups is then found in merged/; the other order can miss it in both places)
+//@   at call:kv.mergeRoots assert listed-versions-sought-current-first: imp(opts.OnlyVersions == nil, typeis(persists[0], *s3Persist.Persist) && persists[0].(*s3Persist.Persist) == rootPersist && typeis(persists[1], *s3Persist.Persist) && persists[1].(*s3Persist.Persist) == mergedPersist)
 //@   at call:kv.mergeRoots assert named-strict: imp(opts.OnlyVersions != nil, !skipUnreadable)
 //@   at call:kv.mergeRoots assert named-exactly: imp(opts.OnlyVersions != nil, versionsToLoad == opts.OnlyVersions)
 //@   at call:kv.mergeRoots assert named-no-list-yet: imp(opts.OnlyVersions != nil, lists == old(lists))
@@ -554,3 +557,9 @@ package kv
 //@   loop 5 invariant -1 <= rangeindex && rangeindex < len(nextRound) && queuedOrDone != nil
 //@   loop 5 invariant forall j int :: imp(0 <= j && j < len(nextRound), nextRound[j].db != nil && nextRound[j].db.crdt.Mast != nil)
 //@   loop 5 invariant forall j int :: imp(0 <= j && j < len(trimmed), trimmed[j].db != nil && trimmed[j].db.crdt.Mast != nil)
+
+// key derivation (C18): the node key is a function of the WHOLE passphrase (and context): two passphrases that
+// differ anywhere derive from different inputs
+//@ func deriveKey
+//@   modifies nothing
+//@   ensures whole-input: bytes(result) == argonKey(b64(bytes(context) + bytes(master)), blake(bytes(context) + bytes(master), 16), 32) && len(result) == 32
